@@ -302,7 +302,50 @@ SCENARIOS = [
      dict(active=["amr", "hydro", "part"], cpus=[], lmax=3, select=lambda kind: {})),
     ("variable lists per group (one name that no reader provides)", dict(select={"mesh": ["density", "level", "no_such_variable"], "part": ["mass"]}),
      dict(active=["amr", "hydro", "part"], cpus=[1, 2], lmax=3, select=lambda kind: {"mesh": ["density", "level", "no_such_variable"], "part": ["mass"]}.get(kind, {}))),
+    # the mask tokens have four elements: here every cell of every block qualifies (a piece may then be stored without masking -
+    # which is the work buffer ITSELF: see work_buffer_retained)
+    ("every cell of every block selected", dict(ncells=lambda cpu, il: 4), dict(active=["amr", "hydro", "part"], cpus=[1, 2], lmax=3, select=lambda kind: {})),
 ]
+
+
+_RETAINED = {}
+_FRESH = __import__("itertools").count(1)
+
+
+def work_buffer_retained(tree):
+    """Reader.allocate_buffers of the repository, interpreted twice for blocks of the same size and once for another size: does a work
+    array of one block survive into the next?  -> None (a fresh array every time) or a description of the retained buffer"""
+    if tree is None:
+        raise Unsupported("work_buffer_retained without a tree")
+    if id(tree) in _RETAINED:
+        return _RETAINED[id(tree)]
+    from .core_models import UnitTok
+    ci = tree.cls("io/reader.py::Reader")
+    m = tree.method(ci, "allocate_buffers")
+    hooks = core_hooks({"numpy.empty": lambda shape, *a, **k: RawTok(("empty", next(_FRESH)), tuple(shape) if isinstance(shape, (list, tuple)) else (shape,)),
+                        "numpy.zeros": lambda shape, *a, **k: RawTok(("zeros", next(_FRESH)), tuple(shape) if isinstance(shape, (list, tuple)) else (shape,)),
+                        "numpy.dtype": lambda t, *a, **k: t})
+    r = PyObj(ci)
+    r._attrs.update({"kind": "mesh", "variables": {"v": {"read": True, "type": "d", "buffer": None, "pieces": {}, "unit": _UnitHolder(UnitTok("u"))}}})
+    ev = ModelEval(tree, m, {}, hooks)
+    seen = []
+    for ncache in (3, 3, 5, 3):
+        ev.invoke(m, [r, ncache, 8], {}, None)
+        seen.append(r._attrs["variables"]["v"]["buffer"])
+    res = None
+    for i in range(1, len(seen)):
+        for j in range(i):
+            if seen[i] is seen[j] or (getattr(seen[i], "origin", 0) == getattr(seen[j], "origin", 1)):
+                res = "io/reader.py::Reader.allocate_buffers keeps the work array of an earlier block (call %d returns the array of call %d)" % (i + 1, j + 1)
+    _RETAINED[id(tree)] = res
+    return res
+
+
+class _UnitHolder(Model):
+    """item["unit"]: the Array whose .units is the unit of the variable"""
+
+    def __init__(self, u):
+        self.units = self.unit = u
 
 
 def check_scenario(sc, exp, loader, out, kinds):
@@ -402,6 +445,25 @@ def check_scenario(sc, exp, loader, out, kinds):
                     if read:
                         want_vars[v] = ("concat", tuple(("idx", ("buffer", r, v, k_), sel) for (k_, sel, n) in sels if n > 0))
             got_vars = {v: tok_origin(a) for v, a in mesh.items_.items()}
+            # a block whose cells ALL qualify may be stored unmasked - the same values - but the piece is then the reader's work buffer
+            # itself, not a copy: sound only while allocate_buffers hands out a fresh array for every block (decided on the real readers)
+            unmasked = []
+            for v, w in want_vars.items():
+                g = got_vars.get(v)
+                if isinstance(g, tuple) and g[:1] == ("concat",) and len(g) == 2 and len(g[1]) == len(w[1]) and g != w:
+                    norm = []
+                    for gp, wp, (k_, sel, n) in zip(g[1], w[1], [x for x in sels if x[2] > 0]):
+                        if gp == wp[1] and n == 4:
+                            unmasked.append((v, k_))
+                            norm.append(wp)
+                        else:
+                            norm.append(gp)
+                    got_vars[v] = ("concat", tuple(norm))
+            if unmasked:
+                kept = work_buffer_retained(sc.get("tree"))
+                if kept:
+                    problems.append(("pieces", "variable %s: the piece of block %d is the reader's work buffer itself (stored without a copy), and %s: "
+                                     "the next block of the same size overwrites the stored rows" % (unmasked[0][0], unmasked[0][1], kept)))
             if any(not w[1] for w in want_vars.values()):
                 want_vars = {}
             if got_vars != want_vars:
@@ -435,6 +497,7 @@ def check_load(run, tree):
             def attempt(over=over):
                 sc_ = scenario(**over)
                 sc_["reader_kinds"] = kinds
+                sc_["tree"] = tree
                 try:
                     return ("ok", sc_) + tuple(run_load(tree, sc_))
                 except (Raised, ProgramRaised) as e:
